@@ -52,7 +52,8 @@ inductive IStep (c : ICfg) (s : IT) : IT → Prop where
       IStep c s { s with statesQ := q,
                          result := some (if c.strict && s.merged.length != c.n then none else some s.merged) }
   | env (ws' : List Worker)
-      (h : (∃ w, crashW c.env s.ws w = some ws') ∨ (∃ w, rejoinW s.ws w = some ws')) :
+      (h : (∃ w, crashW c.env s.ws w = some ws') ∨
+           (∃ w, rejoinW s.ws w = some ws' ∧ s.freeWorker w = true)) :
       IStep c s { s with ws := ws' }
 
 theorem itStep_sound {c : ICfg} {s s' : IT} {l : ILabel} (hs : itStep c s l = some s') : IStep c s s' := by
@@ -153,7 +154,10 @@ theorem itStep_sound {c : ICfg} {s s' : IT} {l : ILabel} (hs : itStep c s l = so
     | none => simp [itStep, hx] at hs
     | some ws' =>
       simp only [itStep, hx] at hs
-      split at hs <;> simp at hs
-      subst hs; exact .env ws' (Or.inr ⟨w, hx⟩)
+      split at hs
+      · rename_i hfree
+        simp at hs
+        subst hs; exact .env ws' (Or.inr ⟨w, hx, hfree⟩)
+      · simp at hs
 
 end MlModel.Sched
